@@ -25,6 +25,7 @@ if os.path.realpath(build.REPO) != "/repo":
 KEEP_DIR = os.path.join(ROOT, "replays", "keep")
 KNOWN_DIR = os.path.join(ROOT, "replays", "known")
 KNOWN_FILE = os.path.join(ROOT, "KNOWN_FINDINGS.txt")
+PRELUDE_S = int(os.environ.get("VERIF_PRELUDE_S", "7200"))   # limit for one step of a worker's prelude (exhaustive sweeps in C)
 HANG_S = int(os.environ.get("VERIF_HANG_S", "150"))   # no generated case takes more than a few seconds; a replay that exceeds this is a hang
 
 
@@ -255,7 +256,12 @@ class Check:
                 try:
                     age = now - max(os.path.getmtime(last), os.path.getmtime(last + ".search"))
                 except OSError:
-                    age = 0     # still in its prelude (long deterministic sweeps), or not started yet
+                    # still in its cold-start probes (which carry their own limit) or in its prelude: deterministic sweeps that
+                    # are long single steps by design - only a very generous limit applies there
+                    try:
+                        age = (now - os.path.getmtime(last)) - (PRELUDE_S - HANG_S)
+                    except OSError:
+                        age = 0
                 if age > HANG_S:
                     try:
                         hung[i] = core.loads(open(last).read())
